@@ -54,7 +54,8 @@ fn subset_of(fields: &Option<Vec<String>>, projection: &Option<String>) -> InfoS
         s |= match p.as_str() {
             "normalized" => InfoSubset::NORMALIZED_FORM,
             "reading" => InfoSubset::READING_FORM,
-            "dictionary" => InfoSubset::DIC_FORM_WORD_ID,
+            "dictionary" | "dictionary_and_surface" => InfoSubset::DIC_FORM_WORD_ID,
+            "normalized_and_surface" | "normalized_nouns" => InfoSubset::NORMALIZED_FORM,
             _ => InfoSubset::empty(),
         };
     }
@@ -89,6 +90,30 @@ fn morph_json(m: &MorphProj, text: &str, projection: &Option<String>) -> Value {
         Some("normalized") => m.norm.clone(),
         Some("reading") => m.reading.clone(),
         Some("dictionary") => m.dict_form.clone(),
+        // the part-of-speech based projections of python/src/projection.rs
+        Some(p @ ("dictionary_and_surface" | "normalized_and_surface")) => match &m.pos {
+            Some(pos) => {
+                let conjugating = matches!(pos[0].as_str(), "動詞" | "形容詞" | "助動詞");
+                if conjugating {
+                    Some(m.surface.clone())
+                } else if p == "dictionary_and_surface" {
+                    m.dict_form.clone()
+                } else {
+                    m.norm.clone()
+                }
+            }
+            None => None,
+        },
+        Some("normalized_nouns") => match &m.pos {
+            Some(pos) => {
+                if pos[5] == "*" {
+                    m.norm.clone()
+                } else {
+                    Some(m.surface.clone())
+                }
+            }
+            None => None,
+        },
         _ => None,
     };
     if let Some(s) = surf {
@@ -153,12 +178,25 @@ pub fn gen_script(rng: &mut Rng, spec: &WorldSpec, built: &BuiltWorld, cfg: &str
                 }
                 Some(f)
             };
-            let projection = match rng.below(6) {
+            let projection = match rng.below(9) {
                 0 => Some("normalized".to_string()),
                 1 => Some("reading".to_string()),
                 2 => Some("dictionary".to_string()),
                 3 => Some("surface".to_string()),
+                4 => Some("dictionary_and_surface".to_string()),
+                5 => Some("normalized_and_surface".to_string()),
+                6 => Some("normalized_nouns".to_string()),
                 _ => None,
+            };
+            // the part-of-speech based projections look at the POS: it must be among the requested fields
+            let fields = match (&projection, fields) {
+                (Some(p), Some(mut f)) if p.ends_with("_surface") || p.ends_with("_nouns") => {
+                    if !f.iter().any(|x| x == "pos") {
+                        f.push("pos".to_string());
+                    }
+                    Some(f)
+                }
+                (_, f) => f,
             };
             let subset = subset_of(&fields, &projection);
             toks.push(TokSpec { mode: modes[rng.below(3)].to_string(), fields, projection, subset });
@@ -339,6 +377,15 @@ pub fn gen_script(rng: &mut Rng, spec: &WorldSpec, built: &BuiltWorld, cfg: &str
                                     "out": if use_out { json!(store) } else { Value::Null },"store":store,
                                     "expect":{"error":"input too long"}}));
                 }
+                6 if rng.chance(1, 2) => {
+                    // a str that cannot be encoded as UTF-8 (lone surrogate): must raise, or else still satisfy
+                    // text[m.begin():m.end()] == m.raw_surface()
+                    let t = rng.below(ntok);
+                    let a = gen_text(&mut rng, &spec.keys).replace('\u{0}', "");
+                    let b = gen_text(&mut rng, &spec.keys).replace('\u{0}', "");
+                    let sur: u32 = [0xd800u32, 0xdbff, 0xdc00, 0xdfff][rng.below(4)];
+                    ops.push(json!({"op":"tokenize_surrogate","t":t,"before":a,"after":b,"surrogate": sur}));
+                }
                 _ => {
                     // misuse that must raise, not crash
                     let kind = ["bad_mode", "index_out_of_range", "bad_fields"][rng.below(3)];
@@ -349,14 +396,23 @@ pub fn gen_script(rng: &mut Rng, spec: &WorldSpec, built: &BuiltWorld, cfg: &str
 
         if with_pretok {
             // calls of the shared SudachiPreTokenizer objects (mode C), with and without a handler
-            for _ in 0..1 + rng.below(3) {
-                let text = gen_text(&mut rng, &spec.keys).replace('\u{0}', "");
-                let handler = rng.chance(1, 2);
+            let mut prev_text: Option<(String, bool)> = None;
+            let mut at = rng.below(ops.len() + 1);
+            for _ in 0..1 + rng.below(4) {
+                // the same text may arrive twice in a row, also the empty piece
+                let (text, handler) = match (&prev_text, rng.below(4)) {
+                    (Some((t, h)), 0) => (t.clone(), *h),
+                    (_, 1) => (String::new(), rng.chance(1, 2)),
+                    _ => (gen_text(&mut rng, &spec.keys).replace('\u{0}', ""), rng.chance(1, 2)),
+                };
+                prev_text = Some((text.clone(), handler));
                 let subset = if handler { InfoSubset::all() } else { InfoSubset::empty() };
                 if let Ok(list) = fresh_analyse(&dict, Mode::C, Some(subset), &text) {
                     let surfaces: Vec<String> = list.iter().map(|m| m.surface().to_string()).collect();
-                    let at = rng.below(ops.len() + 1);
+                    // consecutive positions so that repeated texts really are consecutive calls of this thread
+                    at = at.min(ops.len());
                     ops.insert(at, json!({"op":"pretok","text":text,"handler":handler,"expect":surfaces}));
+                    at += 1;
                 }
             }
         }
